@@ -171,6 +171,18 @@ func jitter(r *Rng, base *big.Int) *big.Int {
 func c(d string, a int64) sdk.Coin { return sdk.NewInt64Coin(d, a) }
 func dd(s string) sdk.Dec          { return sdk.MustNewDecFromStr(s) }
 
+func setupSafe(sc *scenario) (w *world, perr string) {
+	defer func() {
+		if r := recover(); r != nil {
+			perr = fmt.Sprint(r)
+			if len(perr) > 300 {
+				perr = perr[:300]
+			}
+		}
+	}()
+	return setup(sc), ""
+}
+
 func setup(sc *scenario) *world {
 	tApp := NewApp()
 	all := Addrs(nOracles + nUsers)
@@ -910,6 +922,9 @@ func (mo *mon) monitor(o op, cls Class, before, after *snap, markets []mkt, fact
 			for _, m := range facts.needed {
 				missing = missing || miss(m)
 			}
+			if missing && !miss(hardMarket[hardDenoms[o.D]]) && cls != ClassOk {
+				mo.mark("hard_borrow:priced-asset-refused-for-unpriced-position")
+			}
 		case "hard_withdraw":
 			if facts.exempt {
 				if miss(hardMarket[hardDenoms[o.D]]) && cls == ClassOk {
@@ -920,6 +935,9 @@ func (mo *mon) monitor(o op, cls Class, before, after *snap, markets []mkt, fact
 			}
 			for _, m := range facts.needed {
 				missing = missing || miss(m)
+			}
+			if missing && !miss(hardMarket[hardDenoms[o.D]]) && cls != ClassOk {
+				mo.mark("hard_withdraw:priced-asset-refused-for-unpriced-position")
 			}
 		case "hard_liquidate":
 			for _, m := range facts.needed {
@@ -1022,6 +1040,37 @@ func (g *gen) expiry(now int64) int64 {
 	}
 }
 
+// mixedPosition looks for a user whose hard position (deposit or borrow) holds a denom
+// whose price is missing, and a denom whose price is available
+func (g *gen) mixedPosition(w *world, s *snap) (int, int, bool) {
+	var availD []int
+	for d, dn := range hardDenoms {
+		if s.get[hardMarket[dn]] != nil {
+			availD = append(availD, d)
+		}
+	}
+	if len(availD) == 0 || len(availD) == len(hardDenoms) {
+		return 0, 0, false
+	}
+	start := g.r.Intn(nUsers)
+	for k := 0; k < nUsers; k++ {
+		u := (start + k) % nUsers
+		var coins sdk.Coins
+		if d, ok := w.hk.GetDeposit(w.ctx, w.users[u]); ok {
+			coins = coins.Add(d.Amount...)
+		}
+		if b, ok := w.hk.GetBorrow(w.ctx, w.users[u]); ok {
+			coins = coins.Add(b.Amount...)
+		}
+		for _, cn := range coins {
+			if m, ok := hardMarket[cn.Denom]; ok && s.get[m] == nil {
+				return u, availD[g.r.Intn(len(availD))], true
+			}
+		}
+	}
+	return 0, 0, false
+}
+
 func (g *gen) tx(w *world, s *snap) op {
 	r := g.r
 	now := w.ctx.BlockTime().UnixNano()
@@ -1034,7 +1083,7 @@ func (g *gen) tx(w *world, s *snap) op {
 		}
 		return o
 	}
-	switch r.Pick(48, 32, 9) {
+	switch r.Pick(44, 38, 9) {
 	case 0: // post
 		m := r.Intn(nParamMk)
 		o := r.Intn(6)
@@ -1092,9 +1141,16 @@ func (g *gen) tx(w *world, s *snap) op {
 		case 4:
 			return op{Kind: "cdp_liquidate", U: 2, Target: u, Ct: r.Intn(2)}
 		case 5:
-			return op{Kind: "hard_borrow", U: r.Intn(3), D: r.Intn(3), Amt: fmt.Sprint(1 + r.Int63n(3_000_000))}
+			o := op{Kind: "hard_borrow", U: r.Intn(3), D: r.Intn(3), Amt: fmt.Sprint(1 + r.Int63n(3_000_000))}
+			if uu, dd, ok := g.mixedPosition(w, s); ok && r.Chance(2, 3) {
+				o.U, o.D = uu, dd // an asset with a price, for a user whose position holds one without
+			}
+			return o
 		case 6:
 			o := op{Kind: "hard_withdraw", U: r.Intn(3), D: r.Intn(3), Amt: fmt.Sprint(1 + r.Int63n(3_000_000))}
+			if uu, dd, ok := g.mixedPosition(w, s); ok && r.Chance(1, 2) {
+				o.U, o.D = uu, dd
+			}
 			if r.Chance(1, 4) {
 				o.Amt = "1000000000000000" // more than the deposit: the whole asset leaves
 			}
@@ -1350,7 +1406,13 @@ func runHistX(seed uint64, idx, n int, ops []op, explicit bool, cnt *Counters) r
 	r := NewRng(seed, uint64(idx))
 	nblocks := n/5 + 2
 	sc := genScenario(r, nblocks)
-	w := setup(sc)
+	w, perr := setupSafe(sc)
+	if perr != "" {
+		// a valid genesis (every posted price expires after the genesis time) must initialise
+		return runOut{splits: map[string]bool{}, ops: ops,
+			coq:  fmt.Sprintf("mkHist %s (mk_state 0 [] [] [] []) []", coqEnv()),
+			fail: &Failure{History: idx, Step: 0, Predicate: "valid-genesis-initialises", Signature: "genesis-panic", Detail: perr}}
+	}
 	g := &gen{r: r, sc: sc, block: -1}
 	mo := &mon{w: w, cnt: cnt, splits: map[string]bool{}}
 	out := runOut{splits: mo.splits}
@@ -1536,6 +1598,7 @@ var allSplits = []string{
 	"probe:ok", "probe:err-none-live", "probe:err-unknown-market",
 	"begin:proceed", "begin:skip-spot-missing", "begin:skip-liquidation-price-missing",
 	"cdp:spot-available-liquidation-missing", "hard_withdraw:whole-asset-out-price-not-needed-ok",
+	"hard_borrow:priced-asset-refused-for-unpriced-position", "hard_withdraw:priced-asset-refused-for-unpriced-position",
 	"consumer:cdp_create:price-missing-refused", "consumer:cdp_deposit:price-missing-refused", "consumer:cdp_withdraw:price-missing-refused",
 	"consumer:cdp_draw:price-missing-refused", "consumer:cdp_liquidate:price-missing-refused",
 	"consumer:hard_borrow:price-missing-refused", "consumer:hard_withdraw:price-missing-refused", "consumer:hard_liquidate:price-missing-refused",
@@ -1584,7 +1647,9 @@ func run(o Opts) (*Result, error) {
 	outs := make([]runOut, o.N)
 	ParallelFor(o.N, o.Workers, func(i int) {
 		ro := runHist(o.Seed, i, n, nil, cnt)
-		if ro.fail != nil {
+		if ro.fail != nil && len(ro.ops) == 0 {
+			ro.fail.Replay = MustJSON(hist{o.Seed, i, n, []op{}})
+		} else if ro.fail != nil {
 			sig := ro.fail.Signature
 			fails := func(cand []op) bool {
 				f := runHistX(o.Seed, i, n, cand, true, nil).fail
